@@ -384,6 +384,34 @@ theorem fingerprint_before_install_witness :
     let bad := snapFingerprint (snapPersist (snapCheckpoint n))     -- fingerprint, then crash before install
     n.live = [(1, 1)] ∧ (openNode (crash bad)).live = [(1, 2)] := by decide
 
+/-- the restart statement for the UNREPAIRED order (fingerprint written before the install), over
+all histories … -/
+def restart_exact_with_early_fingerprint_full : Prop :=
+  ∀ hist : List C22.Op,
+    (openNode (crash (snapFingerprint (snapPersist (snapCheckpoint (C22.run {} hist)))))).live = (C22.run {} hist).live
+
+/-- … is false -/
+theorem not_restart_exact_with_early_fingerprint_full : ¬ restart_exact_with_early_fingerprint_full := by
+  intro h
+  have := h [.write (.exec false [.put 1 0]), .snapshot 0, .write (.exec false [.add 1 1])]
+  revert this
+  decide
+
+/-- the fast path WITHOUT the comparison of the marker's snapshot index, over all histories and
+installs: "a crash after the sink closed restarts with the received database" … -/
+def install_crash_exact_ignoring_marker_index_full : Prop :=
+  ∀ (hist : List C22.Op) (hist' : List Cmd) (j : Nat) (d : Db), InstallPre (C22.run {} hist) hist' j →
+    (openNode (crash { installSinkClosed (C22.run {} hist) hist' j d with fpIdx := j })).live = replay d (hist'.drop j)
+
+/-- … is false: the index in the marker is what makes `restart_exact_after_install_crash` true -/
+theorem not_install_crash_exact_ignoring_marker_index_full : ¬ install_crash_exact_ignoring_marker_index_full := by
+  intro h
+  have := h [.write (.exec false [.put 1 1]), .snapshot 0]
+    ((C22.run {} [.write (.exec false [.put 1 1]), .snapshot 0]).hist ++ [.exec false [.put 2 2]]) 2 [(1, 1), (2, 2)]
+    ⟨by decide, by decide⟩
+  revert this
+  decide
+
 /-- **fingerprint_removed_before_swap**: in `fsmRestore`'s step list, no state with the new
 database file in place carries a fingerprint written for the old one: the fingerprint is
 false from the removal step until the step that writes the new one -/
